@@ -39,6 +39,12 @@ func hostFn(name string) tengo.CallableFunc {
 		return func(args ...tengo.Object) (tengo.Object, error) {
 			return nil, ErrHost
 		}
+	case "hf_pack":
+		// keeps the argument slice it was given (ordinary host code: nothing
+		// says a CallableFunc must copy args before retaining it)
+		return func(args ...tengo.Object) (tengo.Object, error) {
+			return &tengo.Array{Value: args}, nil
+		}
 	case "hf_args":
 		return func(args ...tengo.Object) (tengo.Object, error) {
 			if len(args) != 2 {
